@@ -7,6 +7,7 @@ the schedule monitors (C09, C10, C15) on every stage snapshot.
 import RSSched.Driver.SchedDump
 import RSSched.Spec.Output
 import RSSched.Model.Swaps
+import RSSched.Model.Output
 namespace RSSched.Driver
 open RSSched Spec
 
@@ -239,6 +240,19 @@ def checkPipe (c : Case) : VM Unit := do
       vfail "C16,C03" "json-not-final-stage" ""
     if (out.unserved, out.violation, out.vehicleCount, out.costs) != objOf fin then
       vfail "C16,C04" "objective-not-of-final-stage" s!"reported={showObj (out.unserved, out.violation, out.vehicleCount, out.costs)} final={showObj (objOf fin)}"
+    -- correspondence: the returned JSON is the model's serialisation of the final stage
+    match toOutput nw fin.s with
+    | .ok m =>
+      let fields : List String :=
+        (if m.vehicles != out.vehicles then ["vehicles"] else []) ++
+        (if m.cycles != out.cycles then ["vehicleCycles"] else []) ++
+        (if m.segs != out.segs then ["departureSegments"] else []) ++
+        (if m.slots != out.slots then ["maintenanceSlots"] else []) ++
+        (if m.dhts != out.dhts then ["deadHeadTrips"] else []) ++
+        (if !(m.depotLoads.all (out.depotLoads.contains ·) && out.depotLoads.all (m.depotLoads.contains ·)) then ["depotLoads"] else []) ++
+        (if (m.unserved, m.violation, m.vehicleCount, m.costs) != (out.unserved, out.violation, out.vehicleCount, out.costs) then ["objectiveValue"] else [])
+      if !fields.isEmpty then vdiff "C03,C16" s!"model-output-{fields.headD ""}" s!"fields={fields}"
+    | .error e => vdiff "C03" "model-output-faults" s!"{repr e}"
     -- no stage gives up covered demand
     if (objOf fin).1 > (objOf st).1 then vfail "C07" "later-stage-gives-up-demand" ""
     vstat "pipe.stages" 1
